@@ -8,6 +8,8 @@
      api/internal/builtins/{Label,Annotations}Transformer.go               (run_label_transformer),
    and of the way layers compose (accumulateTarget: bases first, then this layer's transformers
    over everything accumulated).
+   filtersutil.SetEntry builds a fresh value node on every invocation (since /repo f5952a1), so no two
+   locations of a document share a yaml.Node and the copying semantics below is exact for whole builds.
    Definitions only; proofs live in Res/LabelsProofs.v. *)
 From KV Require Export Yaml.FieldSpec.
 
@@ -130,97 +132,10 @@ Definition label_transformers (tc : tconfig) (d : dirs) : res (list (pairs * lis
       Ok (l ++ [(d_common_labels d, tc_common_labels tc)])%list
   end.
 
-(* ---------- locations of label entries and node sharing ---------- *)
-
-Inductive step := SK (k : string) | SI (i : nat).
-Definition loc := list step.          (* path from the document root to an entry's value *)
-Definition group := list loc.         (* locations holding one and the same *yaml.Node *)
-
-Definition step_eqb (a b : step) : bool :=
-  match a, b with
-  | SK x, SK y => String.eqb x y
-  | SI i, SI j => Nat.eqb i j
-  | _, _ => false
-  end.
-Fixpoint loc_eqb (a b : loc) : bool :=
-  match a, b with
-  | [], [] => true
-  | x :: a', y :: b' => step_eqb x y && loc_eqb a' b'
-  | _, _ => false
-  end.
-Definition mem_loc (l : loc) (g : group) : bool := existsb (loc_eqb l) g.
-
-(* same scalar up to presentation style *)
-Definition scalar_same (a b : node) : bool :=
-  match a, b with
-  | Scalar t _ v, Scalar t' _ v' => tag_eqb t t' && String.eqb v v'
-  | _, _ => false
-  end.
-
-(* compare a document before and after a pass for key [k]: entries named k with a scalar value
-   that are new ([created]) or whose content differs ([changed]) *)
-Fixpoint scan (k : string) (old new : node) (pre : loc) {struct new} : list loc * list loc :=
-  match new with
-  | Map kvs' =>
-      let okvs := match old with Map o => o | _ => [] end in
-      (fix go (l : list (string * node)) : list loc * list loc :=
-         match l with
-         | [] => ([], [])
-         | (key, x') :: t =>
-             let here :=
-               match find_field key okvs with
-               | Some x =>
-                   if String.eqb key k && is_scalar x'
-                   then (if scalar_same x x' then ([], []) else ([], [(pre ++ [SK key])%list]))
-                   else scan k x x' (pre ++ [SK key])%list
-               | None =>
-                   if String.eqb key k && is_scalar x'
-                   then ([(pre ++ [SK key])%list], [])
-                   else scan k (Map []) x' (pre ++ [SK key])%list
-               end in
-             let r := go t in ((fst here ++ fst r)%list, (snd here ++ snd r)%list)
-         end) kvs'
-  | Seq es' =>
-      let oes := match old with Seq o => o | _ => [] end in
-      (fix go (l : list node) (i : nat) : list loc * list loc :=
-         match l with
-         | [] => ([], [])
-         | x' :: t =>
-             let here := scan k (nth i oes (Map [])) x' (pre ++ [SI i])%list in
-             let r := go t (S i) in ((fst here ++ fst r)%list, (snd here ++ snd r)%list)
-         end) es' 0
-  | Scalar _ _ _ => ([], [])
-  end.
-
-(* overwrite the value at a location (no effect when the location does not exist) *)
-Fixpoint set_loc (l : loc) (v : node) (obj : node) {struct l} : node :=
-  match l with
-  | [] => v
-  | SK key :: rest =>
-      match obj with
-      | Map kvs =>
-          match find_field key kvs with
-          | Some x => Map (set_first key (set_loc rest v x) kvs)
-          | None => obj
-          end
-      | _ => obj
-      end
-  | SI i :: rest =>
-      match obj with
-      | Seq es =>
-          match nth_error es i with
-          | Some x => Seq (replace_nth i (set_loc rest v x) es)
-          | None => obj
-          end
-      | _ => obj
-      end
-  end.
-
 Section Build.
   Variable nonstr : string -> bool.
   Variable tc : tconfig.
 
-  (* ----- without node sharing: exact for one transformer run on a freshly parsed document ----- *)
 
   Fixpoint run_transformers (lts : list (pairs * list fieldspec)) (rs : list node) : res (list node) :=
     match lts with
@@ -246,77 +161,22 @@ Section Build.
                 end
     end.
 
-  (* ----- with node sharing -----
-     SetEntry allocates ONE yaml.Node per (document, key) and FieldSetter appends that very pointer
-     wherever it creates the entry; where the entry exists it copies the content into the existing
-     node (RNode.SetYNode: *old = *new). Entries created by one pass therefore share a node, and a
-     later pass that overwrites one of them overwrites all of them - whatever its field specs say.
-     A resource carries its sharing classes: lists of locations holding the same node. *)
-  Definition rstate := (node * list group)%type.
-
-  Definition key_pass_al (fss : list fieldspec) (kv : string * string) (st : rstate) : res rstate :=
-    let (obj, gs) := st in
-    do obj' <- key_pass nonstr fss kv obj;
-    let (created, changed) := scan (fst kv) obj obj' [] in
-    let hit := filter (fun g => existsb (fun l => mem_loc l g) changed) gs in
-    let v := Scalar TStr SPlain (snd kv) in
-    let obj'' := fold_left (fun o g => fold_left (fun o' l => set_loc l v o') g o) hit obj' in
-    Ok (obj'', match created with
-               | _ :: _ :: _ => created :: gs
-               | _ => gs
-               end).
-
-  Fixpoint keys_pass_al (fss : list fieldspec) (kvs : pairs) (st : rstate) : res rstate :=
-    match kvs with
-    | [] => Ok st
-    | kv :: t => do st' <- key_pass_al fss kv st; keys_pass_al fss t st'
-    end.
-
-  Definition run_label_transformer_al (labels : pairs) (fss : list fieldspec) (rs : list rstate)
-    : res (list rstate) :=
-    match labels with
-    | [] => Ok rs
-    | _ => mapM (keys_pass_al fss (sort_pairs labels)) rs
-    end.
-
-  Fixpoint run_transformers_al (lts : list (pairs * list fieldspec)) (rs : list rstate) : res (list rstate) :=
-    match lts with
-    | [] => Ok rs
-    | (p, fss) :: t => do rs' <- run_label_transformer_al p fss rs; run_transformers_al t rs'
-    end.
-
-  Definition apply_dirs_al (d : dirs) (rs : list rstate) : res (list rstate) :=
-    do lts <- label_transformers tc d;
-    do rs1 <- run_transformers_al lts rs;
-    run_label_transformer_al (d_common_annos d) (tc_common_annotations tc) rs1.
-
-  Fixpoint apply_chain_al (ds : list dirs) (st : rstate) : res rstate :=
-    match ds with
-    | [] => Ok st
-    | d :: t => do l <- apply_dirs_al d [st];
-                match l with
-                | [o] => apply_chain_al t o
-                | _ => Err
-                end
-    end.
-
   (* a kustomization: its directives, the resources of its own files, its bases
      (the harness lists bases before files in [resources:]) *)
   Inductive layer := Layer (d : dirs) (own : list node) (bases : list layer).
 
-  Fixpoint accumulate (l : layer) : res (list rstate) :=
+  Fixpoint accumulate (l : layer) : res (list node) :=
     match l with
     | Layer d own bases =>
-        do bs <- (fix go (bl : list layer) : res (list rstate) :=
+        do bs <- (fix go (bl : list layer) : res (list node) :=
                     match bl with
                     | [] => Ok []
                     | b :: t => do x <- accumulate b; do y <- go t; Ok (x ++ y)%list
                     end) bases;
-        apply_dirs_al d (bs ++ map (fun n => (n, [])) own)%list
+        apply_dirs d (bs ++ own)%list
     end.
 
-  Definition build (l : layer) : res (list node) :=
-    do rs <- accumulate l; Ok (map fst rs).
+  Definition build (l : layer) : res (list node) := accumulate l.
 End Build.
 
 (* ---------- reading label maps back (the observables of the property) ---------- *)
